@@ -121,24 +121,40 @@ structure LocalLive (P : Program) (x : Act) : Prop where
   holds : HoldsInv x
   call : CallOk x
   static : x.def_ = (P[x.task]?).getD {}
+  dedup : x.waitsFor ≠ none → x.def_.run ≠ .always
+
+theorem stepLocal_waiter_run (F : Flags) (o : Obs) (x : Act) (k : Nat) (y : Act) (eff : Eff)
+    (h : stepLocal F o x (.waiter k) = some (y, eff)) : x.def_.run ≠ .always := by
+  intro hr
+  unfold stepLocal at h
+  split at h <;> simp_all
 
 theorem localLive_fresh (P : Program) (F : Flags) (c : Config) (kind : Kind) (t : Nat) :
     LocalLive P (freshAct P F c kind t) := by
-  obtain ⟨hph, _, _, _, _, _, _, _, _, _, _, ht, hd, _⟩ := freshAct_fields P F c kind t
-  refine ⟨WF_fresh P F c kind t, keyInv_fresh P F c kind t, holdsInv_fresh P F c kind t, ?_, by rw [hd, ht]⟩
+  obtain ⟨hph, _, _, _, _, _, _, _, hw, _, _, ht, hd, _⟩ := freshAct_fields P F c kind t
+  refine ⟨WF_fresh P F c kind t, keyInv_fresh P F c kind t, holdsInv_fresh P F c kind t, ?_, by rw [hd, ht],
+    fun h => absurd hw h⟩
   intro i d h; rcases hph with e | e <;> rw [e] at h <;> cases h
 
 theorem localLive_local (P : Program) (F : Flags) (o : Obs) (x : Act) (ev : Ev) (y : Act) (eff : Eff)
     (hl : LocalLive P x) (h : stepLocal F o x ev = some (y, eff)) : LocalLive P y := by
   have hst := stepLocal_static F o x ev y eff h
-  exact ⟨WF_local F o x ev y eff hl.wf h, keyInv_local F o x ev y eff hl.keys h,
+  refine ⟨WF_local F o x ev y eff hl.wf h, keyInv_local F o x ev y eff hl.keys h,
     (stepLocal_holds F o x ev y eff hl.holds h).1, callOk_local F o x ev y eff hl.wf hl.call h,
-    by rw [hst.def_, hst.task]; exact hl.static⟩
+    by rw [hst.def_, hst.task]; exact hl.static, ?_⟩
+  intro hw
+  rw [hst.def_]
+  cases hyw : y.waitsFor with
+  | none => exact absurd hyw hw
+  | some k =>
+    rcases (stepLocal_keys F o x ev y eff hl.keys.pre h).2.2.1 k hyw with e | ⟨e, _, _⟩
+    · exact hl.dedup (by rw [e]; simp)
+    · rw [e] at h; exact stepLocal_waiter_run F o x k y eff h
 
 theorem localLive_kids (P : Program) (x : Act) (k : List (Nat × Nat)) (hl : LocalLive P x) :
     LocalLive P { x with kids := k } :=
   ⟨⟨hl.wf.rest, hl.wf.stack, hl.wf.defers, hl.wf.running⟩, ⟨hl.keys.pre, hl.keys.excl, hl.keys.waiter⟩,
-   hl.holds, hl.call, hl.static⟩
+   hl.holds, hl.call, hl.static, hl.dedup⟩
 
 /-! ### stability of what other activations observe -/
 
